@@ -187,12 +187,19 @@ impl Property for C17 {
     }
 
     fn fixed_cases(&self, _tier: Tier) -> Vec<Case> {
-        crate::sweep::fixed_cases(300).into_iter().map(|s| Case { ops: vec![], sweep: Some(s) }).collect()
+        // (entry points of the operators contract that the pinned inventory does not know get five times as many cases: who
+        // is an operator is this property's subject)
+        let mut v: Vec<Case> = crate::sweep::fixed_cases(300).into_iter().map(|s| Case { ops: vec![], sweep: Some(s) }).collect();
+        v.extend(crate::sweep::fixed_cases(1500).into_iter().skip(0).filter(|s| s.ep.contract == "axelar-operators").map(|s| Case { ops: vec![], sweep: Some(s) }));
+        v
     }
 
     fn run(&self, case: &Case, cx: &mut Cx) -> Result<(), String> {
         if let Some(sw) = &case.sweep {
-            return crate::sweep::run(sw, cx, crate::sweep::Rule::Operators);
+            // two invariants, alternating: payouts through the operators contract need a current operator; the operator set
+            // changes only with its owner's authorisation (in this call, or in an earlier one naming the newcomer)
+            let rule = if sw.pick % 2 == 0 { crate::sweep::Rule::Operators } else { crate::sweep::Rule::Roles };
+            return crate::sweep::run(sw, cx, rule);
         }
         let env = new_env();
         let mut pool: Vec<Address> = (0..NA).map(|_| Address::generate(&env)).collect();
